@@ -191,3 +191,51 @@ MUTANTS += [
     dict(id="c20-sentinel-by-value", property="C20", edits=[(A, "    def __reduce__(self):\n        return self._name\n", "")]),
     dict(id="c20-reducer-strips-dims", property="C20", edits=[(A, "        return x.dtype.__getitem__, (x._pickle_args,)", "        return x.dtype.__getitem__, ((x._pickle_args[0], x._pickle_args[1].replace('#', '')),)")]),
 ]
+
+MUTANTS += [
+    # ---- C05
+    dict(id="c05-pop-only-on-exception-class", property="C05", edits=[(D, """                try:
+                    # Put this in a separate frame to make debugging easier, without
+                    # just always ending up on the `pop_shape_memo` line below.
+                    return wrapped_fn_impl(args, kwargs, bound, memos)
+                finally:
+                    pop_shape_memo()""", """                try:
+                    out = wrapped_fn_impl(args, kwargs, bound, memos)
+                except Exception:
+                    pop_shape_memo()
+                    raise
+                pop_shape_memo()
+                return out""")]),
+    dict(id="c05-exit-pops-only-on-success", property="C05", edits=[(D, """    def __exit__(self, exc_type, exc_value, exc_tb):
+        pop_shape_memo()""", """    def __exit__(self, exc_type, exc_value, exc_tb):
+        if exc_type is None:
+            pop_shape_memo()""")]),
+    dict(id="c05-push-before-bind", property="C05", edits=[(D, """                bound = param_signature.bind(*args, **kwargs)
+                bound.apply_defaults()
+
+                memos = push_shape_memo(bound.arguments)""", """                memos = push_shape_memo({})
+                bound = param_signature.bind(*args, **kwargs)
+                bound.apply_defaults()
+                memos[3].update(bound.arguments)""")]),
+    dict(id="c05-oldstyle-pop-in-except", property="C05", edits=[(D, """                    raise
+                finally:
+                    pop_shape_memo()
+
+        else:""", """                    pop_shape_memo()
+                    raise
+                else:
+                    pop_shape_memo()
+
+        else:""")]),
+    dict(id="c05-toplevel-stateful", property="C05", edits=[(S, """        single_memo = {}
+        variadic_memo = {}
+        pytree_memo = {}
+        arguments = {}
+    return single_memo""", """        single_memo, variadic_memo, pytree_memo, arguments = _GLOBAL
+    return single_memo"""), (S, "_shape_storage = threading.local()\n", "_shape_storage = threading.local()\n_GLOBAL = ({}, {}, {}, {})\n")]),
+    dict(id="c05-exit-pops-only-on-exception-subclass", property="C05", edits=[(D, """    def __exit__(self, exc_type, exc_value, exc_tb):
+        pop_shape_memo()""", """    def __exit__(self, exc_type, exc_value, exc_tb):
+        if exc_type is None or issubclass(exc_type, Exception):
+            pop_shape_memo()""")]),
+    dict(id="c05-args-shared-with-caller", property="C05", edits=[(S, "    memos = ({}, {}, {}, arguments.copy())\n", "    memos = ({}, {}, {}, dict(memo_stack[-1][3], **arguments) if memo_stack else arguments.copy())\n")]),
+]
